@@ -89,6 +89,14 @@ func runC12(ctx *Ctx) *Report {
 		docs = append(docs, []byte("- "+strings.Repeat("x", n-2)+"\n- b\n"))
 		docs = append(docs, []byte("- a\n  - "+strings.Repeat("y", n-4)))
 	}
+	// ill-formed rows around 4 KiB / 64 KiB whose last character is a multi-byte one (error messages quote the row)
+	var longBad [][]byte
+	for _, n := range []int{4090, 4093, 4094, 4095, 4096, 4097, 8191, 65530} {
+		for _, tail := range []string{"あ", "é", "😀", "\x80\x80\x80", "z"} {
+			longBad = append(longBad, []byte(strings.Repeat("x", n)+tail+"\n"), []byte("- ok\n  "+strings.Repeat("q", n-2)+tail+"\n- after\n"))
+		}
+	}
+	docs = append(docs, longBad...)
 	kinds := []string{"iter-text", "batch-text", "iter-dry", "json", "yaml", "walk", "verify"}
 	type job struct {
 		doc  []byte
@@ -195,6 +203,9 @@ func runC12(ctx *Ctx) *Report {
 		} else {
 			mjobs = append(mjobs, c12job{entries[i%len(entries)], hx(d)})
 		}
+	}
+	for i, d := range longBad {
+		mjobs = append(mjobs, c12job{[]string{"text", "json", "walk", "dry"}[i%4], hx(d)})
 	}
 	for nbad := 3; nbad <= 12; nbad += 3 {
 		var sb strings.Builder
